@@ -131,6 +131,59 @@ impl DurationLiteral {
         }
     }
 
+    /// Create a new `DurationLiteral` for `value` units of `nanoseconds_per_unit`
+    /// nanoseconds each, or an error when the duration cannot be represented.
+    fn try_from_units(value: FixedPoint, nanoseconds_per_unit: u128) -> Result<Self, &'static str> {
+        const NANOSECONDS_PER_SECOND: u128 = 1_000_000_000;
+        let whole = value.whole as u128 * nanoseconds_per_unit;
+        let fraction =
+            value.femptos as u128 * nanoseconds_per_unit / FixedPoint::FRACTIONAL_UNITS as u128;
+        let total = whole + fraction;
+        let seconds =
+            i64::try_from(total / NANOSECONDS_PER_SECOND).map_err(|e| "duration out of range")?;
+        Ok(Self {
+            span: value.span,
+            interval: Duration::new(seconds, (total % NANOSECONDS_PER_SECOND) as i32),
+        })
+    }
+
+    /// Same as `days` but returns an error when the duration cannot be represented.
+    pub fn try_days(days: FixedPoint) -> Result<Self, &'static str> {
+        Self::try_from_units(days, SECOND_PER_DAY as u128 * 1_000_000_000)
+    }
+
+    /// Same as `hours` but returns an error when the duration cannot be represented.
+    pub fn try_hours(hours: FixedPoint) -> Result<Self, &'static str> {
+        Self::try_from_units(hours, SECOND_PER_HOUR as u128 * 1_000_000_000)
+    }
+
+    /// Same as `minutes` but returns an error when the duration cannot be represented.
+    pub fn try_minutes(minutes: FixedPoint) -> Result<Self, &'static str> {
+        Self::try_from_units(minutes, SECOND_PER_MINUTE as u128 * 1_000_000_000)
+    }
+
+    /// Same as `seconds` but returns an error when the duration cannot be represented.
+    pub fn try_seconds(seconds: FixedPoint) -> Result<Self, &'static str> {
+        Self::try_from_units(seconds, 1_000_000_000)
+    }
+
+    /// Same as `milliseconds` but returns an error when the duration cannot be represented.
+    pub fn try_milliseconds(millis: FixedPoint) -> Result<Self, &'static str> {
+        Self::try_from_units(millis, 1_000_000)
+    }
+
+    /// Same as `plus` but returns an error when the sum cannot be represented.
+    pub fn try_plus(&self, other: DurationLiteral) -> Result<Self, &'static str> {
+        let interval = self
+            .interval
+            .checked_add(other.interval)
+            .ok_or("duration out of range")?;
+        Ok(DurationLiteral {
+            span: SourceSpan::join(&self.span, &other.span),
+            interval,
+        })
+    }
+
     pub fn plus(&self, other: DurationLiteral) -> Self {
         DurationLiteral {
             span: SourceSpan::join(&self.span, &other.span),
